@@ -437,6 +437,45 @@ Proof.
   lia.
 Qed.
 
+(** ** any order of vesting claims (first or later, any caller, any round) and owner withdrawals *)
+Inductive vstep (v2 : bool) : world -> world -> Prop :=
+| vs_claim e w w' : caller e <> sc_addr -> claim_vested v2 e w = Ok w' -> vstep v2 w w'
+| vs_owner e w w' : caller e <> sc_addr -> claim_ticket_payment_gt e w = Ok w' -> vstep v2 w w'.
+
+Inductive vsteps (v2 : bool) : world -> world -> Prop :=
+| vss_nil w : vsteps v2 w w
+| vss_cons w w1 w2 : vstep v2 w w1 -> vsteps v2 w1 w2 -> vsteps v2 w w2.
+
+Theorem VInv_steps v2 w w' A x :
+  ClaimInv w A -> VInv v2 w A x -> pay_token (st w) <> lp_token (st w) -> vsteps v2 w w' ->
+  ClaimInv w' A /\ VInv v2 w' A x /\ pay_token (st w') <> lp_token (st w') /\ lp_token (st w') = lp_token (st w).
+Proof.
+  intros Hi Hv Htok Hs. induction Hs as [w|w w1 w2 H1 _ IH]; [auto|].
+  assert (H1' : ClaimInv w1 A /\ VInv v2 w1 A x /\ pay_token (st w1) = pay_token (st w) /\ lp_token (st w1) = lp_token (st w)).
+  { destruct H1 as [e w w1 Hne E|e w w1 Hne E].
+    - destruct (VCover_claim v2 e w w1 A x Hi Hv Htok Hne E) as (A1 & A2 & A3 & _).
+      destruct (tf_price' _ _ (claim_vested_tf _ _ _ _ E)) as [_ Hpt]. auto.
+    - destruct (ClaimInv_owner_gt e w w1 A Hi Hne Htok E) as (A1 & _).
+      destruct (VCover_owner v2 e w w1 A x Hi Hv Htok Hne E) as (A2 & _ & A3 & _).
+      destruct (tf_price' _ _ (claim_ticket_payment_gt_tf _ _ _ E)) as [_ Hpt]. auto. }
+  destruct H1' as (Hi1 & Hv1 & Hpt & Hlp).
+  destruct (IH Hi1 Hv1 ltac:(rewrite Hpt, Hlp; exact Htok)) as (B1 & B2 & B3 & B4).
+  split; [exact B1|]. split; [exact B2|]. split; [exact B3|]. congruence.
+Qed.
+
+(** ... and when every winner has been paid in full and the owner has withdrawn, both balances are
+    what the invariants say: no payment tokens, only the foreign launchpad tokens [x] *)
+Corollary VInv_steps_drained v2 w w' A x :
+  ClaimInv w A -> VInv v2 w A x -> pay_token (st w) <> lp_token (st w) -> vsteps v2 w w' ->
+  (forall a, In a A -> confirmed (st w') a = 0) -> claimable_payment (st w') = 0 ->
+  nr_winning (st w') = 0 -> (forall a, In a A -> outstanding (st w') a = 0) -> surplus (st w') = 0 ->
+  bal w' sc_addr (pay_token (st w')) 0 = 0 /\ bal w' sc_addr (lp_token (st w')) 0 = x.
+Proof.
+  intros Hi Hv Htok Hs Hall Hcp Hn Hout Hsur.
+  destruct (VInv_steps v2 w w' A x Hi Hv Htok Hs) as (Hi' & Hv' & _).
+  split; [eapply ClaimInv_drained; eauto|eapply VCover_drained; eauto].
+Qed.
+
 (** ** the invariant is met by a concrete sale at the start of its claim period, and a claim moves it as stated *)
 From LP Require Import Proofs.Examples.
 Definition gt2_claim1 := step_sha Gt2 gt2_done (mkenv 2 31 0 [], 100%nat, [], CClaim).
